@@ -1,5 +1,6 @@
 import GormModel.Drv.Util
 import GormModel.Model.Bind
+import GormModel.Model.BindSpec
 open Lean
 open Gorm.Bind
 namespace Gorm.Drv
@@ -105,11 +106,19 @@ def stJ (d : Dialect) (st : St String) : Json :=
   Json.mkObj [("sql", cs (concretize d st.segs)), ("vars", Json.arr (st.vars.map valJ).toArray),
     ("phs", natListJ (phs st.segs)), ("oof", Json.bool st.oof), ("unsupported", Json.bool st.unsupported)]
 
+/-- rendering of `v` plus the SPECIFICATION side (`Model/BindSpec.lean`): `wf` = `(spec d v).ok`, `flat` = `(spec d v).xs` -/
+def renderJ (d : Dialect) (v : Val String) : Json :=
+  let st := render d v
+  let sp := spec d v
+  Json.mkObj [("sql", cs (concretize d st.segs)), ("vars", Json.arr (st.vars.map valJ).toArray),
+    ("phs", natListJ (phs st.segs)), ("oof", Json.bool st.oof), ("unsupported", Json.bool st.unsupported),
+    ("wf", Json.bool sp.ok), ("flat", Json.arr (sp.xs.map valJ).toArray)]
+
 end HC01
 
 open HC01 in
 /-- line-protocol handler for C01 (ops are JSON arrays `[opname, args…]`); returns `none` for ops it does not own
-    ["bind.render", dialect, val]                      → {sql, vars, phs, oof, unsupported}   (`stmt.AddVar(stmt, v)` on a fresh statement)
+    ["bind.render", dialect, val]                      → {sql, vars, phs, oof, unsupported, wf, flat}   (`stmt.AddVar(stmt, v)` on a fresh statement; wf/flat = `Gorm.Bind.spec`)
     ["bind.cond", dialect, isNum, query, [args]]       → "fallthrough" | {…}                  (BuildCondition string dispatch, then Build of each result)
     ["bind.wf", val]                                   → bool (decidable well-formedness, Model side) -/
 def handleC01 (op : String) (args : Array Json) : Option Json := do
@@ -117,7 +126,7 @@ def handleC01 (op : String) (args : Array Json) : Option Json := do
   | "bind.render" =>
     let d ← parseDialect (arg args 1)
     let v ← parseVal (arg args 2)
-    some (stJ d (render d v))
+    some (renderJ d v)
   | "bind.cond" =>
     let d ← parseDialect (arg args 1)
     let isNum ← jBool? (arg args 2)
@@ -125,7 +134,7 @@ def handleC01 (op : String) (args : Array Json) : Option Json := do
     let as ← (← jArr? (arg args 4)).toList.mapM parseVal
     match buildCondStr isNum q as with
     | none => some (Json.str "fallthrough")
-    | some es => some (stJ d (render d (.whereC es)))
+    | some es => some (renderJ d (.whereC es))
   | _ => none
 
 end Gorm.Drv
